@@ -12,7 +12,7 @@ package announce
 
 // Data-structure invariant of a Receiver built by NewReceiver: the done
 // channel exists and is closed only once the receiver is marked closed.
-//@ spec func recvOK(r val) bool = r != nil && r.done != nil && r.announceCache != nil && (closed(r.done) ==> r.closed) && r.outChan != nil && !closed(r.outChan)
+//@ spec func recvOK(r val) bool = r != nil && r.done != nil && lruOK(r.announceCache) && (closed(r.done) ==> r.closed) && r.outChan != nil && !closed(r.outChan)
 
 // Close: idempotent; every return leaves the mutex as it found it (implicit
 // balance obligation); close(done) at most once.
@@ -63,9 +63,49 @@ package announce
 //@   trusted "republication through the p2p sender: only pubsub-internal state changes"
 //@   pure
 
-//@ func (*stringLRU).remove
-//@   nobody
-//@   requires l != nil
+// ---------------------------------------------------------------------------
+// C09: the duplicate filter is an LRU set of at most max strings.
+//
+// Representation invariant: the map and the list are in bijection (cache[k] is
+// a list element whose value is k, and every list element is cache[its value]),
+// sizes agree, and the capacity is respected. The recency order is the rank of
+// the list elements (container/list contracts in /verif/extern/list.spec).
+//@ spec func lruOK(l val) bool = l != nil && l.cache != nil && l.ll != nil && l.max >= 1 && g_size(l.ll) <= l.max && g_size(l.ll) == len(l.cache) && all(k, has(l.cache, k) ==> l.cache[k] != nil && g_in(l.cache[k]) == l.ll && g_val(l.cache[k]) == k) && all(e, e != 0 && g_in(e) == l.ll ==> has(l.cache, g_val(e)) && l.cache[g_val(e)] == e && typeis(as(e, "*list.Element").Value, "string") && payload(as(e, "*list.Element").Value) == g_val(e))
+
+//@ func newStringLRU
+//@   property C09
+//@   requires maxEntries >= 1
+//@   ensures result != nil && isfresh(result) && result.max == maxEntries && len(result.cache) == 0
+//@   ensures-assumed all(e, e != 0 ==> g_in(e) != result.ll)
+//@   ensures result.cache != nil && result.ll != nil && g_size(result.ll) == 0
+
+//@ func (*stringLRU).len
+//@   property C09
+//@   pure
+//@   requires l != nil && l.ll != nil
+//@   ensures result == g_size(l.ll)
+
+// update(s): reports whether s was present; afterwards s is present and the
+// most recent; on a hit nothing else changes; on a miss at capacity exactly the
+// least recent key is evicted; the order of the other keys never changes.
 //@ func (*stringLRU).update
-//@   nobody
-//@   requires l != nil
+//@   property C09
+//@   requires lruOK(l)
+//@   modifies state(l)
+//@   ensures lruOK(l)
+//@   ensures result <==> old(has(l.cache, s))
+//@   ensures has(l.cache, s) && g_rank(l.cache[s]) == g_top(l.ll)
+//@   ensures all(e, e != 0 && e != l.cache[s] && g_in(e) == l.ll ==> g_rank(e) == old(g_rank(e)) && g_rank(e) < g_top(l.ll))
+//@   ensures old(has(l.cache, s)) ==> all(k, has(l.cache, k) <==> old(has(l.cache, k)))
+//@   ensures !old(has(l.cache, s)) && old(g_size(l.ll)) < l.max ==> all(k, has(l.cache, k) <==> (k == str(s) || old(has(l.cache, k))))
+//@   ensures !old(has(l.cache, s)) && old(g_size(l.ll)) == l.max ==> some(v, old(has(l.cache, v)) && v != str(s) && all(k, old(has(l.cache, k)) ==> old(g_rank(l.cache[v])) <= old(g_rank(l.cache[k]))) && all(k, has(l.cache, k) <==> (k == str(s) || (old(has(l.cache, k)) && k != v))))
+
+// remove(s): reports whether s was present; afterwards it is not; nothing else changes.
+//@ func (*stringLRU).remove
+//@   property C09
+//@   requires lruOK(l)
+//@   modifies state(l)
+//@   ensures lruOK(l)
+//@   ensures result <==> old(has(l.cache, s))
+//@   ensures all(k, has(l.cache, k) <==> (old(has(l.cache, k)) && k != str(s)))
+//@   ensures all(e, e != 0 && g_in(e) == l.ll ==> g_rank(e) == old(g_rank(e)))
